@@ -96,7 +96,10 @@ SvgCells(reg, n, vals, o) ==
      /\ Len(cells) = Cardinality(want)                                                      \* with the next line: each exactly once
      /\ { cells[k] : k \in DOMAIN cells } = want
 SvgLayerColors(reg, o) == \A i \in DOMAIN o.layers : i <= Len(LayersOf(reg)) => o.layers[i].fill = LayerColor(reg, LayersOf(reg)[i]).txt
-SvgImage(reg, o) == IF reg.hasImage THEN Len(o.images) = 1 /\ o.images[1].href = reg.image ELSE Len(o.images) = 0
+\* XML attribute-value normalisation: a literal TAB, LF or CR inside an attribute is read back as a space by every
+\* conforming parser; the property's domain (URLs, data URIs, paths, XML-special characters) does not ask for more
+AttrNormalize(s) == [i \in 1..Len(s) |-> IF s[i] \in {9, 10, 13} THEN 32 ELSE s[i]]
+SvgImage(reg, o) == IF reg.hasImage THEN Len(o.images) = 1 /\ o.images[1].href = AttrNormalize(reg.image) ELSE Len(o.images) = 0
 
 (* ---------------- C18: frame geometry, milli-modules ---------------- *)
 Near(a, b, tol) == AbsI(a - b) <= tol
@@ -120,7 +123,7 @@ FrameOverrides(reg, n, f, im) ==
   /\ (reg.gap >= 0 => \/ Near(f.w - im.w, 2*reg.gap, 7) \/ Near(f.w - im.w, 2*reg.gap - 1000, 7))
   /\ (reg.pos # <<>> => Near(2*f.x + f.w, 2*reg.pos[1], 3) /\ Near(2*f.y + f.h, 2*reg.pos[2], 3))
   /\ (reg.pos = <<>> => Near(2*f.x + f.w, s, 3) /\ Near(2*f.y + f.h, s, 3))
-  /\ FrameImageCentred(f, im, 14)
+  /\ FrameImageCentred(f, im, 17)      \* x, y and width are printed with two decimals: 2*5 + 5 milli, plus rounding of the frame values
 
 (* ---------------- C13: raster ---------------- *)
 ExpectedSide(reg, n) == LET cells == n + 2*reg.margin IN
